@@ -25,6 +25,9 @@ import (
 //
 //	param:<name>  field:<T.F>  call:<callee full name>  const:<value>  global:<pkg.Name>
 //	len  cap  elem (element load)  recv-of:<method>  fv:<name>
+// paramAtomSubst is set only while CheckGuard looks into a predicate helper (single-threaded use).
+var paramAtomSubst = map[*ssa.Parameter]map[string]bool{}
+
 func Atoms(v ssa.Value) map[string]bool {
 	out := map[string]bool{}
 	atomsRec(v, out, map[ssa.Value]bool{}, 0)
@@ -44,6 +47,14 @@ func atomsRec(v ssa.Value, out map[string]bool, seen map[ssa.Value]bool, depth i
 			out["const:nil"] = true
 		}
 	case *ssa.Parameter:
+		if sub, ok := paramAtomSubst[x]; ok {
+			// inside a predicate helper that is being looked at on behalf of one call site: the parameter
+			// stands for the argument passed there
+			for a := range sub {
+				out[a] = true
+			}
+			return
+		}
 		out["param:"+x.Name()] = true
 		if f := x.Parent(); f != nil {
 			for i, q := range f.Params {
@@ -340,7 +351,14 @@ func CondCmp(cond ssa.Value) (x, y ssa.Value, rel token.Token, ok bool) {
 	if neg {
 		rel = negRel(rel)
 	}
-	return bo.X, bo.Y, rel, true
+	x, y = bo.X, bo.Y
+	if _, xc := x.(*ssa.Const); xc {
+		if _, yc := y.(*ssa.Const); !yc {
+			// written from the other side ("0 == x"): constant to the right
+			x, y, rel = y, x, flipRel(rel)
+		}
+	}
+	return x, y, rel, true
 }
 
 // ---- failure exits -----------------------------------------------------------------------------
@@ -452,7 +470,32 @@ func EdgeOutcome(prog *core.Program, from, to *ssa.BasicBlock, fk FailKind) (boo
 				return false
 			}
 		}
-		for _, s := range b.Succs {
+		// a branch on a boolean that this very edge decided ("x := a || b; if x" entered from the
+		// short-circuit exit: the phi is the constant true) follows the decided side only
+		decided := -1
+		if iff, ok := b.Instrs[len(b.Instrs)-1].(*ssa.If); ok && len(b.Succs) == 2 {
+			c := iff.Cond
+			neg := false
+			for {
+				if u, isU := c.(*ssa.UnOp); isU && u.Op == token.NOT {
+					neg = !neg
+					c = u.X
+					continue
+				}
+				break
+			}
+			if k, isC := resolve(c, phis, env).(*ssa.Const); isC && k.Value != nil && k.Value.Kind() == constant.Bool {
+				if constant.BoolVal(k.Value) != neg {
+					decided = 0
+				} else {
+					decided = 1
+				}
+			}
+		}
+		for si, s := range b.Succs {
+			if decided >= 0 && si != decided {
+				continue
+			}
 			ne := env.clone()
 			// carry resolved phis that are cells? (phis are only needed inside the block and for conditions)
 			applyEdgeFactsResolved(b, s, ne, phis)
@@ -638,7 +681,10 @@ func CheckGuard(prog *core.Program, spec GuardSpec) GuardResult {
 		if !ok {
 			continue
 		}
-		m, failOnTrue := spec.Match(iff)
+		m, failOnTrue := MatchIf(spec.Match, iff)
+		if !m {
+			m, failOnTrue = matchThroughHelper(prog, spec, iff)
+		}
 		if !m {
 			continue
 		}
@@ -1054,4 +1100,247 @@ func sentinelError(g *ssa.Global) bool {
 	}
 	sentinelMemo[g] = res
 	return res
+}
+
+// MatchIf applies a branch matcher to an If and, when the If's condition is a boolean that was computed as
+// a value ("case a && b:" of a tagless switch, "x := a || b; if x"), to its last operand as well: arriving
+// through the computed edge the phi has that operand's value, so a test recognised in the operand decides
+// the branch in the same direction.  A negation of the phi flips the direction.
+func MatchIf(m func(*ssa.If) (bool, bool), iff *ssa.If) (bool, bool) {
+	if ok, f := m(iff); ok {
+		return ok, f
+	}
+	cond := iff.Cond
+	neg := false
+	for depth := 0; depth < 4; depth++ {
+		if u, ok := cond.(*ssa.UnOp); ok && u.Op == token.NOT {
+			neg = !neg
+			cond = u.X
+			continue
+		}
+		phi, ok := cond.(*ssa.Phi)
+		if !ok || !isBoolType(phi.Type()) {
+			return false, false
+		}
+		var rest []ssa.Value
+		for _, e := range phi.Edges {
+			if c, isC := e.(*ssa.Const); isC && c.Value != nil {
+				continue
+			}
+			rest = append(rest, e)
+		}
+		if len(rest) != 1 || len(rest) == len(phi.Edges) {
+			return false, false
+		}
+		cond = rest[0]
+		tmp := *iff
+		tmp.Cond = cond
+		if ok, f := m(&tmp); ok {
+			return true, f != neg
+		}
+	}
+	return false, false
+}
+
+// matchThroughHelper: "if out_of_range(&sig.R) { return false }" - the test the rule looks for was moved into
+// a small boolean helper.  The helper is examined with its parameters standing for the arguments of this call:
+// a branch (or the returned expression itself) inside it must match, its violating outcome must make the
+// helper return the value for which the caller's branch rejects, and no path through the helper may return
+// the other value without passing that test.
+func matchThroughHelper(prog *core.Program, spec GuardSpec, iff *ssa.If) (bool, bool) {
+	cond := iff.Cond
+	neg := false
+	for {
+		if u, ok := cond.(*ssa.UnOp); ok && u.Op == token.NOT {
+			neg = !neg
+			cond = u.X
+			continue
+		}
+		break
+	}
+	call, ok := cond.(*ssa.Call)
+	if !ok {
+		return false, false
+	}
+	f := StaticCallee(call)
+	if f == nil || !core.InModule(f) || f.Blocks == nil || len(f.Blocks) > 16 || f == spec.Fn {
+		return false, false
+	}
+	if res := f.Signature.Results(); res.Len() != 1 || !isBoolType(res.At(0).Type()) {
+		return false, false
+	}
+	args := call.Call.Args
+	if len(args) != len(f.Params) {
+		return false, false
+	}
+	for i, par := range f.Params {
+		paramAtomSubst[par] = Atoms(args[i])
+	}
+	defer func() {
+		for _, par := range f.Params {
+			delete(paramAtomSubst, par)
+		}
+	}()
+	for _, helperTrueRejects := range []bool{true, false} {
+		fk := FailKind{Result: 0, Kind: "false"}
+		if helperTrueRejects {
+			fk.Kind = "true"
+		}
+		found := false
+		for _, b := range f.Blocks {
+			switch last := b.Instrs[len(b.Instrs)-1].(type) {
+			case *ssa.If:
+				m, fot := MatchIf(spec.Match, last)
+				if !m {
+					continue
+				}
+				fs := b.Succs[1]
+				if fot {
+					fs = b.Succs[0]
+				}
+				if ok2, _ := EdgeOutcome(prog, b, fs, fk); !ok2 {
+					continue
+				}
+				bypass := false
+				for _, rb := range f.Blocks {
+					if ret, isRet := rb.Instrs[len(rb.Instrs)-1].(*ssa.Return); isRet && !b.Dominates(rb) && AcceptingReturnPossible(ret, fk) {
+						bypass = true
+					}
+				}
+				if !bypass {
+					found = true
+				}
+			case *ssa.Return:
+				if len(last.Results) != 1 {
+					continue
+				}
+				if _, isC := last.Results[0].(*ssa.Const); isC {
+					continue
+				}
+				// the returned expression as a virtual branch: value v is returned as it is
+				tmp := ssa.If{Cond: last.Results[0]}
+				if m, fot := MatchIf(spec.Match, &tmp); m && fot == helperTrueRejects {
+					// every other return of the helper is reached only ... accepted when this return dominates all
+					// non-rejecting returns, i.e. it is the only return that can yield the accepting value
+					bypass := false
+					for _, rb := range f.Blocks {
+						if ret, isRet := rb.Instrs[len(rb.Instrs)-1].(*ssa.Return); isRet && ret != last && AcceptingReturnPossible(ret, fk) {
+							bypass = true
+						}
+					}
+					if !bypass {
+						found = true
+					}
+				}
+			}
+		}
+		if found {
+			// caller side: helper returning helperTrueRejects must take the rejecting edge
+			return true, helperTrueRejects != neg
+		}
+	}
+	return false, false
+}
+
+// CmpEdges gives the comparison an If branches on, in normal form (constant operand right), as the relation
+// that holds on its true edge and the one that holds on its false edge - "if !(a < b)" and "if a >= b" with
+// exchanged branches are the same to a caller that asks on which edge a relation holds.
+func CmpEdges(iff *ssa.If) (x, y ssa.Value, relTrue, relFalse token.Token, ok bool) {
+	x, y, relTrue, ok = CondCmp(iff.Cond)
+	if !ok {
+		return
+	}
+	return x, y, relTrue, negRel(relTrue), true
+}
+
+// EdgeWhere returns the successor of the If's block on which holds(x, y, rel) is true for the branch's
+// comparison, or nil.
+func EdgeWhere(iff *ssa.If, holds func(x, y ssa.Value, rel token.Token) bool) *ssa.BasicBlock {
+	x, y, rt, rf, ok := CmpEdges(iff)
+	if !ok {
+		return nil
+	}
+	b := iff.Block()
+	if holds(x, y, rt) {
+		return b.Succs[0]
+	}
+	if holds(x, y, rf) {
+		return b.Succs[1]
+	}
+	return nil
+}
+
+// DependsOn reports whether v is computed from w (w occurs among the transitive operands of v).
+func DependsOn(v, w ssa.Value) bool {
+	seen := map[ssa.Value]bool{}
+	var walk func(x ssa.Value, d int) bool
+	walk = func(x ssa.Value, d int) bool {
+		if x == nil || seen[x] || d > 40 {
+			return false
+		}
+		if x == w {
+			return true
+		}
+		seen[x] = true
+		ins, ok := x.(ssa.Instruction)
+		if !ok {
+			return false
+		}
+		for _, op := range ins.Operands(nil) {
+			if *op != nil && walk(*op, d+1) {
+				return true
+			}
+		}
+		return false
+	}
+	return v != w && walk(v, 0)
+}
+
+// MatchCmpDependent matches "later rel earlier" between two values of the same kind (both carry the given
+// atoms) where the first operand is the one computed from the other - e.g. the signature count of
+// CHECKMULTISIG, whose stack position depends on the key count - however the comparison is oriented in the
+// source.
+func MatchCmpDependent(failRel token.Token, atoms ...string) func(*ssa.If) (bool, bool) {
+	return func(iff *ssa.If) (bool, bool) {
+		x, y, rel, ok := CondCmp(iff.Cond)
+		if !ok || !HasAll(Atoms(x), atoms...) || !HasAll(Atoms(y), atoms...) {
+			return false, false
+		}
+		switch {
+		case DependsOn(x, y) && !DependsOn(y, x):
+		case DependsOn(y, x) && !DependsOn(x, y):
+			rel = flipRel(rel)
+		default:
+			return false, false
+		}
+		if rel == failRel {
+			return true, true
+		}
+		if negRel(rel) == failRel {
+			return true, false
+		}
+		return false, false
+	}
+}
+
+// WithParamAtoms evaluates f while the given parameters stand for the given atom sets (the arguments of one
+// call site): Atoms() of anything computed from such a parameter then yields the caller-side provenance.
+func WithParamAtoms(sub map[*ssa.Parameter]map[string]bool, f func()) {
+	old := map[*ssa.Parameter]map[string]bool{}
+	for p, a := range sub {
+		if prev, ok := paramAtomSubst[p]; ok {
+			old[p] = prev
+		}
+		paramAtomSubst[p] = a
+	}
+	defer func() {
+		for p := range sub {
+			if prev, ok := old[p]; ok {
+				paramAtomSubst[p] = prev
+			} else {
+				delete(paramAtomSubst, p)
+			}
+		}
+	}()
+	f()
 }
